@@ -359,11 +359,11 @@ func runC11(c *Ctx) {
 	for _, ml := range mapLoops(g, vFieldLoad(clientReqT, "fileFields", nil)) {
 		for _, sl := range sliceLoops(g, vOrigins(oIsValue(extractOf(ml.Next, 2)))) {
 			okEach := sl.everyIteration(func(in ssa.Instruction) bool {
-				return isCall("io.Copy")(in) || isCall("rt/client.logClose")(in)
+				return isCall("io.Copy")(in) || failsPipe(in)
 			})
 			c.obI("R11.4", sl.Elem, "every-file-copied", okEach, "every file of every file field is copied into a part (or its failure is propagated)", "")
 			c.obI("R11.4", sl.Elem, "every-file-gets-a-part", sl.everyIteration(func(in ssa.Instruction) bool {
-				return isCall("(*mime/multipart.Writer).CreatePart")(in) || isCall("rt/client.logClose")(in)
+				return isCall("(*mime/multipart.Writer).CreatePart")(in) || failsPipe(in)
 			}), "every file gets its own part", "")
 		}
 		// part header
